@@ -656,7 +656,7 @@ pub async fn run_network(sc: Scenario) -> NetResult {
     }
     tokio::time::sleep(Duration::from_millis(sc.linger_ms)).await;
     let lag = crate::max_lag_since(t0);
-    let discard = lag > b_ms / 4;
+    let discard = lag > b_ms / 8;
     log.ev(0, "d", json!({"e": "quiesce", "lag_ms": lag, "timed_out": timed_out, "discard": discard}));
 
     // ---- teardown
